@@ -106,7 +106,7 @@ package ion
 // The VarUInt/VarInt specification functions are opaque: only the proofs of the functions
 // that implement them (`reveal`) see their definitions; every caller reasons from the
 // callee's contract alone.
-//@ opaque specVarUintEndAt specVarUintValue specVarUintStop specVarIntValue specVarIntSign
+//@ opaque specVarUintEndAt specVarUintValue specVarUintStop specVarIntValue specVarIntSign specBEValue
 
 // Leaf I/O helpers. They carry contracts of their own (so a change inside them fails a
 // named obligation) and are `inline`: callers use their bodies, not the contracts.
@@ -286,6 +286,8 @@ package ion
 //@ ensures[C19] old(b.state) == bssBeforeValue && old(bsAvail(b)) == 0 && old(bsS(b).end) != io.EOF && (old(bsTop(b)) || old(b.pos) != old(bsTopEnd(b))) ==> err != nil
 //@ ensures[C07] old(b.state) == bssBeforeValue && (old(bsTop(b)) || old(b.pos) != old(bsTopEnd(b))) && old(bsAvail(b)) > 0 &&
 //@    specTagIllegal(old(bsByte(b, 0)), old(bsTop(b))) ==> err != nil
+//@ ensures[C03,C08] old(b.state) == bssBeforeValue && (old(bsTop(b)) || old(b.pos) != old(bsTopEnd(b))) && old(bsAvail(b)) > 0 && err == nil ==>
+//@    b.state == bssOnValue && b.code == specTagCode(old(bsByte(b, 0))) && b.null == specTagNull(old(bsByte(b, 0))) && !specTagIllegal(old(bsByte(b, 0)), old(bsTop(b)))
 //@ ensures[C03,C08] old(b.state) == bssBeforeValue && (old(bsTop(b)) || old(b.pos) != old(bsTopEnd(b))) && old(bsAvail(b)) > 0 &&
 //@    !specTagIllegal(old(bsByte(b, 0)), old(bsTop(b))) && specTagNull(old(bsByte(b, 0))) ==>
 //@    err == nil && b.code == specTagCode(old(bsByte(b, 0))) && b.null && b.len == 0 && b.state == bssOnValue &&
@@ -315,4 +317,304 @@ package ion
 //@    specVarUintEndAt(bsS(b).data, old(bsS(b).cur)+1) != 0 && specVarUintEndAt(bsS(b).data, old(bsS(b).cur)+1) <= old(bsRem(b))-1 &&
 //@    specVarUintValue(bsS(b).data, old(bsS(b).cur)+1, specVarUintEndAt(bsS(b).data, old(bsS(b).cur)+1)) <= old(bsRem(b))-1-specVarUintEndAt(bsS(b).data, old(bsS(b).cur)+1) &&
 //@    (old(bsByte(b, 0)) != 0xD1 || specVarUintValue(bsS(b).data, old(bsS(b).cur)+1, specVarUintEndAt(bsS(b).data, old(bsS(b).cur)+1)) != 0) ==> err == nil
+//@ safe[C06]
+
+// ---------------------------------------------------------------------------
+// bitstream: value readers. Each consumes exactly the value's len bytes - the same cursor
+// effect as SkipValue (C08: skipping a value and reading it leave the stream in the same
+// place) - and decodes them as the Ion binary spec says.
+
+//@ func (*bitstream).ReadInt
+//@ split returns
+//@ reveal specBEValue
+//@ unroll loop0 8
+//@ requires bsLocal(b) && b.state == bssOnValue && !b.null && (b.code == bitcodeInt || b.code == bitcodeNegInt)
+//@ modifies b.pos, b.state, b.code, b.null, b.len, vcStreamOf(b.in).cur
+//@ ensures[C06] bsStream(b)
+//@ ensures[C03,C06,C08] err == nil ==> bsLocal(b) && bsConsumed(b, old(b.pos), old(bsS(b).cur), old(b.len))
+//@ ensures[C07,C19] old(b.len) >= 1<<63 || uint64(old(bsAvail(b))) < old(b.len) ==> err != nil
+//@ ensures[C03,C13] err == nil && (old(b.len) < 8 || (old(b.len) == 8 && old(bsByte(b, 0))&0x80 == 0)) && old(b.code) == bitcodeInt ==>
+//@    vcIsInt64(result) && vcAsInt64(result) == int64(specBEValue(bsS(b).data, old(bsS(b).cur), old(b.len)))
+//@ ensures[C03,C13] err == nil && (old(b.len) < 8 || (old(b.len) == 8 && old(bsByte(b, 0))&0x80 == 0)) && old(b.code) == bitcodeNegInt ==>
+//@    vcIsInt64(result) && vcAsInt64(result) == -int64(specBEValue(bsS(b).data, old(bsS(b).cur), old(b.len)))
+//@ ensures[C13] err == nil && (old(b.len) > 8 || (old(b.len) == 8 && old(bsByte(b, 0))&0x80 != 0)) ==> vcIsBigInt(result)
+//@ ensures[C03,C07] old(b.code) == bitcodeNegInt && old(b.len) <= 8 && uint64(old(bsAvail(b))) >= old(b.len) &&
+//@    specBEValue(bsS(b).data, old(bsS(b).cur), old(b.len)) == 0 ==> err != nil
+//@ ensures[C03] uint64(old(bsAvail(b))) >= old(b.len) && old(b.len) <= 8 &&
+//@    (old(b.code) == bitcodeInt || specBEValue(bsS(b).data, old(bsS(b).cur), old(b.len)) != 0) ==> err == nil
+//@ safe[C06]
+
+//@ func (*bitstream).ReadSymbolID
+//@ split returns
+//@ reveal specBEValue
+//@ unroll loop0 8
+//@ requires bsLocal(b) && bsOn(b, bitcodeSymbol)
+//@ modifies b.pos, b.state, b.code, b.null, b.len, vcStreamOf(b.in).cur
+//@ ensures[C06] bsStream(b)
+//@ ensures[C03,C06,C08] err == nil ==> bsLocal(b) && bsConsumed(b, old(b.pos), old(bsS(b).cur), old(b.len))
+//@ ensures[C07,C13] old(b.len) > 8 || uint64(old(bsAvail(b))) < old(b.len) ==> err != nil
+//@ ensures[C03,C13] old(b.len) <= 8 && uint64(old(bsAvail(b))) >= old(b.len) ==>
+//@    err == nil && result == specBEValue(bsS(b).data, old(bsS(b).cur), old(b.len))
+//@ safe[C06]
+
+//@ func (*bitstream).ReadFloat
+//@ split returns
+//@ reveal specBEValue
+//@ requires bsLocal(b) && bsOn(b, bitcodeFloat)
+//@ modifies b.pos, b.state, b.code, b.null, b.len, vcStreamOf(b.in).cur
+//@ ensures[C06] bsStream(b)
+//@ ensures[C03,C06,C08] err == nil ==> bsLocal(b) && bsConsumed(b, old(b.pos), old(bsS(b).cur), old(b.len))
+//@ ensures[C07] old(b.len) != 0 && old(b.len) != 4 && old(b.len) != 8 ==> err != nil
+//@ ensures[C07,C19] uint64(old(bsAvail(b))) < old(b.len) ==> err != nil
+//@ ensures[C03,C13] old(b.len) == 0 ==> err == nil && math.Float64bits(result) == 0
+//@ ensures[C03,C13] old(b.len) == 4 && old(bsAvail(b)) >= 4 ==> err == nil &&
+//@    (result == float64(math.Float32frombits(uint32(specBEValue(bsS(b).data, old(bsS(b).cur), 4)))) || (result != result &&
+//@     math.Float32frombits(uint32(specBEValue(bsS(b).data, old(bsS(b).cur), 4))) != math.Float32frombits(uint32(specBEValue(bsS(b).data, old(bsS(b).cur), 4)))))
+//@ ensures[C03,C13] old(b.len) == 8 && old(bsAvail(b)) >= 8 ==> err == nil &&
+//@    (result == math.Float64frombits(specBEValue(bsS(b).data, old(bsS(b).cur), 8)) || (result != result &&
+//@     math.Float64frombits(specBEValue(bsS(b).data, old(bsS(b).cur), 8)) != math.Float64frombits(specBEValue(bsS(b).data, old(bsS(b).cur), 8))))
+//@ safe[C06]
+
+//@ func (*bitstream).ReadString
+//@ split returns
+//@ requires bsLocal(b) && bsOn(b, bitcodeString)
+//@ modifies b.pos, b.state, b.code, b.null, b.len, vcStreamOf(b.in).cur
+//@ ensures[C06] bsStream(b)
+//@ ensures[C03,C06,C08] err == nil ==> bsLocal(b) && bsConsumed(b, old(b.pos), old(bsS(b).cur), old(b.len))
+//@ ensures[C07,C19] old(b.len) >= 1<<63 || uint64(old(bsAvail(b))) < old(b.len) ==> err != nil
+//@ ensures[C03] err == nil ==> uint64(len(result)) == old(b.len)
+//@ ensures[C03] forall k int :: err == nil && 0 <= k && uint64(k) < old(b.len) ==> result[k] == old(bsByte(b, k))
+//@ safe[C06]
+
+//@ func (*bitstream).ReadBytes
+//@ split returns
+//@ requires bsLocal(b) && b.state == bssOnValue && !b.null && (b.code == bitcodeClob || b.code == bitcodeBlob)
+//@ modifies b.pos, b.state, b.code, b.null, b.len, vcStreamOf(b.in).cur
+//@ ensures[C06] bsStream(b)
+//@ ensures[C03,C06,C08] err == nil ==> bsLocal(b) && bsConsumed(b, old(b.pos), old(bsS(b).cur), old(b.len))
+//@ ensures[C07,C19] old(b.len) >= 1<<63 || uint64(old(bsAvail(b))) < old(b.len) ==> err != nil
+//@ ensures[C03] old(b.len) < 1<<63 && uint64(old(bsAvail(b))) >= old(b.len) ==> err == nil && uint64(len(result)) == old(b.len) && result != nil
+//@ ensures[C03] forall k int :: err == nil && 0 <= k && uint64(k) < old(b.len) ==> result[k] == old(bsByte(b, k))
+//@ safe[C06]
+
+//@ func (*bitstream).ReadDecimal
+//@ trusted assumed for callers until the decimal decoding is under contract: consumes exactly the value or fails
+//@ requires bsLocal(b) && bsOn(b, bitcodeDecimal)
+//@ modifies b.pos, b.state, b.code, b.null, b.len, vcStreamOf(b.in).cur
+//@ ensures bsStream(b)
+//@ ensures err == nil ==> bsLocal(b) && bsConsumed(b, old(b.pos), old(bsS(b).cur), old(b.len)) && result != nil
+
+//@ func (*bitstream).ReadTimestamp
+//@ trusted assumed for callers until the timestamp decoding is under contract: consumes exactly the value or fails
+//@ requires bsLocal(b) && bsOn(b, bitcodeTimestamp)
+//@ modifies b.pos, b.state, b.code, b.null, b.len, vcStreamOf(b.in).cur
+//@ ensures bsStream(b)
+//@ ensures err == nil ==> bsLocal(b) && bsConsumed(b, old(b.pos), old(bsS(b).cur), old(b.len))
+
+//@ func (*bitstream).ReadBVM
+//@ split returns
+//@ requires bsLocal(b) && bsOn(b, bitcodeBVM)
+//@ modifies b.pos, b.state, b.code, b.null, b.len, vcStreamOf(b.in).cur
+//@ ensures[C06] bsStream(b)
+//@ ensures[C03,C06,C08,C10] err == nil ==> bsLocal(b) && b.pos == old(b.pos)+3 && bsS(b).cur == old(bsS(b).cur)+3 && b.state == bssBeforeValue && bsCleared(b)
+//@ ensures[C03,C10] old(bsAvail(b)) >= 3 && old(bsByte(b, 2)) == 0xEA ==> err == nil && result0 == old(bsByte(b, 0)) && result1 == old(bsByte(b, 1))
+//@ ensures[C07] old(bsAvail(b)) < 3 || old(bsByte(b, 2)) != 0xEA ==> err != nil
+//@ safe[C06]
+
+//@ func (*bitstream).ReadFieldID
+//@ split returns
+//@ requires bsLocal(b) && b.state == bssOnFieldID && b.code == bitcodeFieldID
+//@ modifies b.pos, b.state, b.code, b.null, b.len, vcStreamOf(b.in).cur
+//@ ensures[C06] bsStream(b)
+//@ ensures[C03,C06,C08] err == nil ==> bsLocal(b) && b.state == bssBeforeValue && bsCleared(b)
+//@ ensures[C03,C08] specVarUintEnd(old(bsS(b))) != 0 && specVarUintEnd(old(bsS(b))) <= old(bsRem(b)) ==> err == nil &&
+//@    b.pos == old(b.pos)+specVarUintEnd(old(bsS(b))) && bsS(b).cur == old(bsS(b).cur)+int(specVarUintEnd(old(bsS(b)))) &&
+//@    result == specVarUintValue(bsS(b).data, old(bsS(b).cur), specVarUintEnd(old(bsS(b))))
+//@ ensures[C07] specVarUintEnd(old(bsS(b))) == 0 || specVarUintEnd(old(bsS(b))) > old(bsRem(b)) ==> err != nil
+//@ safe[C06]
+
+// ---------------------------------------------------------------------------
+// reader.go: accessors. Each returns nil for a typed null of its own type, a UsageError for
+// a value of another type, and the value otherwise; none of them changes the reader (C08).
+
+//@ func (*reader).IntSize
+//@ requires rdValueWF(r)
+//@ modifies nothing
+//@ ensures[C13] r.valueType != IntType ==> err != nil && result == NullInt
+//@ ensures[C13] r.valueType == IntType && r.value == nil ==> err == nil && result == NullInt
+//@ ensures[C13] r.valueType == IntType && vcIsInt64(r.value) && -(1<<31) <= vcAsInt64(r.value) && vcAsInt64(r.value) < 1<<31 ==> err == nil && result == Int32
+//@ ensures[C13] r.valueType == IntType && vcIsInt64(r.value) && !(-(1<<31) <= vcAsInt64(r.value) && vcAsInt64(r.value) < 1<<31) ==> err == nil && result == Int64
+//@ ensures[C13] r.valueType == IntType && vcIsBigInt(r.value) ==> err == nil && result == BigInt
+//@ safe[C06,C13]
+
+//@ func (*reader).Int64Value
+//@ split returns
+//@ requires rdValueWF(r)
+//@ modifies nothing
+//@ ensures[C13] r.valueType != IntType ==> err != nil && result == nil
+//@ ensures[C13] r.valueType == IntType && r.value == nil ==> err == nil && result == nil
+//@ ensures[C13] r.valueType == IntType && vcIsInt64(r.value) ==> err == nil && result != nil && *result == vcAsInt64(r.value)
+//@ ensures[C13] r.valueType == IntType && vcIsBigInt(r.value) && vcAsBigInt(r.value).IsInt64() ==> err == nil && result != nil && *result == vcAsBigInt(r.value).Int64()
+//@ ensures[C13] r.valueType == IntType && vcIsBigInt(r.value) && !vcAsBigInt(r.value).IsInt64() ==> err != nil && result == nil
+//@ safe[C06,C13]
+
+//@ func (*reader).IntValue
+//@ split returns
+//@ requires rdValueWF(r)
+//@ modifies nothing
+//@ ensures[C13] r.valueType != IntType ==> err != nil && result == nil
+//@ ensures[C13] r.valueType == IntType && r.value == nil ==> err == nil && result == nil
+//@ ensures[C13] r.valueType == IntType && vcIsInt64(r.value) && -(1<<31) <= vcAsInt64(r.value) && vcAsInt64(r.value) < 1<<31 ==> err == nil && result != nil && int64(*result) == vcAsInt64(r.value)
+//@ ensures[C13] r.valueType == IntType && vcIsInt64(r.value) && !(-(1<<31) <= vcAsInt64(r.value) && vcAsInt64(r.value) < 1<<31) ==> err != nil && result == nil
+//@ ensures[C13] r.valueType == IntType && vcIsBigInt(r.value) && !vcAsBigInt(r.value).IsInt64() ==> err != nil && result == nil
+//@ safe[C06,C13]
+
+//@ func (*reader).BigIntValue
+//@ split returns
+//@ requires rdValueWF(r)
+//@ modifies nothing
+//@ ensures[C13] r.valueType != IntType ==> err != nil && result == nil
+//@ ensures[C13] r.valueType == IntType && r.value == nil ==> err == nil && result == nil
+//@ ensures[C13] r.valueType == IntType && vcIsInt64(r.value) ==> err == nil && result != nil && result.IsInt64() && result.Int64() == vcAsInt64(r.value)
+//@ ensures[C13] r.valueType == IntType && vcIsBigInt(r.value) ==> err == nil && result == vcAsBigInt(r.value)
+//@ safe[C06,C13]
+
+//@ func (*reader).BoolValue
+//@ requires rdValueWF(r)
+//@ modifies nothing
+//@ ensures[C13] r.valueType != BoolType ==> err != nil && result == nil
+//@ ensures[C13] r.valueType == BoolType && r.value == nil ==> err == nil && result == nil
+//@ ensures[C13] r.valueType == BoolType && r.value != nil ==> err == nil && result != nil
+//@ safe[C06,C13]
+
+//@ func (*reader).FloatValue
+//@ requires rdValueWF(r)
+//@ modifies nothing
+//@ ensures[C13] r.valueType != FloatType ==> err != nil && result == nil
+//@ ensures[C13] r.valueType == FloatType && r.value == nil ==> err == nil && result == nil
+//@ ensures[C13] r.valueType == FloatType && r.value != nil ==> err == nil && result != nil
+//@ safe[C06,C13]
+
+//@ func (*reader).DecimalValue
+//@ requires rdValueWF(r)
+//@ modifies nothing
+//@ ensures[C13] r.valueType != DecimalType ==> err != nil && result == nil
+//@ ensures[C13] r.valueType == DecimalType && r.value == nil ==> err == nil && result == nil
+//@ ensures[C13] r.valueType == DecimalType && r.value != nil ==> err == nil && result != nil
+//@ safe[C06,C13]
+
+//@ func (*reader).TimestampValue
+//@ requires rdValueWF(r)
+//@ modifies nothing
+//@ ensures[C13] r.valueType != TimestampType ==> err != nil && result == nil
+//@ ensures[C13] r.valueType == TimestampType && r.value == nil ==> err == nil && result == nil
+//@ ensures[C13] r.valueType == TimestampType && r.value != nil ==> err == nil && result != nil
+//@ safe[C06,C13]
+
+//@ func (*reader).ByteValue
+//@ requires rdValueWF(r)
+//@ modifies nothing
+//@ ensures[C13] r.valueType != BlobType && r.valueType != ClobType ==> err != nil && result == nil
+//@ ensures[C13] (r.valueType == BlobType || r.valueType == ClobType) && r.value == nil ==> err == nil && result == nil
+//@ ensures[C13] (r.valueType == BlobType || r.valueType == ClobType) && r.value != nil ==> err == nil
+//@ safe[C06,C13]
+
+//@ func (*reader).StringValue
+//@ requires rdValueWF(r)
+//@ modifies nothing
+//@ ensures[C07,C13] r.err != nil ==> err == r.err && result == nil
+//@ ensures[C13] r.err == nil && r.valueType != StringType ==> err != nil && result == nil
+//@ ensures[C13] r.err == nil && r.valueType == StringType && r.value == nil ==> err == nil && result == nil
+//@ ensures[C13] r.err == nil && r.valueType == StringType && r.value != nil ==> err == nil && result != nil
+//@ safe[C06,C13]
+
+//@ func (*reader).SymbolValue
+//@ requires rdValueWF(r)
+//@ modifies nothing
+//@ ensures[C07,C13] r.err != nil ==> err == r.err && result == nil
+//@ ensures[C13] r.err == nil && r.valueType != SymbolType ==> err != nil && result == nil
+//@ ensures[C13] r.err == nil && r.valueType == SymbolType && r.value == nil ==> err == nil && result == nil
+//@ ensures[C13] r.err == nil && r.valueType == SymbolType && r.value != nil ==> err == nil && result != nil
+//@ safe[C06,C13]
+
+// ---------------------------------------------------------------------------
+// symboltoken.go
+
+//@ func NewSymbolTokenBySID
+//@ requires symbolTable != nil
+//@ modifies nothing
+//@ ensures[C09,C10] err == nil ==> result.LocalSID == sid && sid >= 0
+//@ ensures[C09,C10] sid < 0 ==> err != nil
+//@ safe[C06]
+
+// ---------------------------------------------------------------------------
+// binaryreader.go
+
+//@ func readLocalSymbolTable
+//@ trusted assumed: on success the reader has consumed the symbol-table struct, stands after it with its invariant intact, and a table is returned (to be replaced by a proof over the Reader interface contract)
+//@ modifies vcAsBinaryReader(r).eof, vcAsBinaryReader(r).lst, vcAsBinaryReader(r).fieldName, vcAsBinaryReader(r).annotations, vcAsBinaryReader(r).valueType, vcAsBinaryReader(r).value, vcAsBinaryReader(r).ctx.arr, vcAsBinaryReader(r).bits.pos, vcAsBinaryReader(r).bits.state, vcAsBinaryReader(r).bits.code, vcAsBinaryReader(r).bits.null, vcAsBinaryReader(r).bits.len, vcAsBinaryReader(r).bits.stack.arr, vcStreamOf(vcAsBinaryReader(r).bits.in).cur
+//@ ensures err == nil ==> result != nil
+//@ ensures err == nil && vcIsBinaryReader(r) ==> brInv(vcAsBinaryReader(r)) && vcAsBinaryReader(r).err == nil && !vcAsBinaryReader(r).eof && vcAsBinaryReader(r).bits.state != bssOnValue
+
+//@ func (*binaryReader).readBVM
+//@ split returns
+//@ requires brInv(r) && bsOn(&r.bits, bitcodeBVM)
+//@ modifies r.lst, r.bits.pos, r.bits.state, r.bits.code, r.bits.null, r.bits.len, vcStreamOf(r.bits.in).cur
+//@ ensures[C03,C06,C10] err == nil ==> brInv(r) && r.bits.state == bssBeforeValue
+//@ ensures[C03,C10] err == nil ==> r.lst == V1SystemSymbolTable
+//@ ensures[C07,C10] old(bsAvail(&r.bits)) < 3 || old(bsByte(&r.bits, 2)) != 0xEA || old(bsByte(&r.bits, 0)) != 1 || old(bsByte(&r.bits, 1)) != 0 ==> err != nil
+//@ ensures[C03,C10] old(bsAvail(&r.bits)) >= 3 && old(bsByte(&r.bits, 2)) == 0xEA && old(bsByte(&r.bits, 0)) == 1 && old(bsByte(&r.bits, 1)) == 0 ==> err == nil
+//@ safe[C06]
+
+//@ func (*binaryReader).StepIn
+//@ split returns
+//@ requires brInv(r)
+//@ modifies r.ctx.arr, r.fieldName, r.annotations, r.valueType, r.value, r.bits.state, r.bits.code, r.bits.null, r.bits.len, r.bits.stack.arr
+//@ ensures[C07,C08] old(r.err) != nil ==> err == old(r.err) && r.valueType == old(r.valueType) && len(r.ctx.arr) == old(len(r.ctx.arr))
+//@ ensures[C08] old(r.err) == nil && (old(r.value) == nil || (old(r.valueType) != ListType && old(r.valueType) != SexpType && old(r.valueType) != StructType)) ==>
+//@    err != nil && r.valueType == old(r.valueType) && r.value == old(r.value) && len(r.ctx.arr) == old(len(r.ctx.arr)) && r.bits.state == old(r.bits.state) && len(r.bits.stack.arr) == old(len(r.bits.stack.arr))
+//@ ensures[C03,C08] old(r.err) == nil && old(r.value) != nil && (old(r.valueType) == ListType || old(r.valueType) == SexpType || old(r.valueType) == StructType) ==>
+//@    err == nil && len(r.ctx.arr) == old(len(r.ctx.arr))+1 && r.valueType == NoType && r.value == nil && r.fieldName == nil &&
+//@    bsTopEnd(&r.bits) == old(r.bits.pos)+old(r.bits.len)
+//@ ensures[C03,C06,C08] brInv(r)
+//@ safe[C06]
+
+//@ func (*binaryReader).StepOut
+//@ split returns
+//@ requires brInv(r)
+//@ modifies r.ctx.arr, r.eof, r.fieldName, r.annotations, r.valueType, r.value, r.bits.pos, r.bits.state, r.bits.code, r.bits.null, r.bits.len, r.bits.stack.arr, vcStreamOf(r.bits.in).cur
+//@ ensures[C07,C08] old(r.err) != nil ==> err == old(r.err) && len(r.ctx.arr) == old(len(r.ctx.arr)) && r.valueType == old(r.valueType)
+//@ ensures[C08] old(r.err) == nil && old(len(r.ctx.arr)) == 0 ==> err != nil && r.valueType == old(r.valueType) && r.value == old(r.value) && r.eof == old(r.eof) && r.bits.pos == old(r.bits.pos)
+//@ ensures[C03,C06,C08] err == nil ==> brInv(r)
+//@ ensures[C03,C08] old(r.err) == nil && old(len(r.ctx.arr)) > 0 && err == nil ==>
+//@    len(r.ctx.arr) == old(len(r.ctx.arr))-1 && !r.eof && r.valueType == NoType && r.value == nil && r.bits.pos == old(bsTopEnd(&r.bits)) && r.bits.state != bssOnValue
+//@ safe[C06]
+
+//@ func (*binaryReader).readFieldName
+//@ split returns
+//@ requires brInv(r) && r.lst != nil && r.bits.state == bssOnFieldID && r.bits.code == bitcodeFieldID
+//@ modifies r.fieldName, r.bits.pos, r.bits.state, r.bits.code, r.bits.null, r.bits.len, vcStreamOf(r.bits.in).cur
+//@ ensures[C03,C06,C10] err == nil ==> brInv(r) && r.bits.state == bssBeforeValue && r.fieldName != nil
+//@ ensures[C03,C10] err == nil ==> uint64(r.fieldName.LocalSID) == specVarUintValue(bsS(&r.bits).data, old(bsS(&r.bits).cur), specVarUintEnd(old(bsS(&r.bits))))
+//@ ensures[C07] specVarUintEnd(old(bsS(&r.bits))) == 0 || specVarUintEnd(old(bsS(&r.bits))) > old(bsRem(&r.bits)) ==> err != nil
+//@ safe[C06]
+
+// next: one step of the binary reader. t is the descriptor octet at the cursor when the
+// stream stands before a value (not at the end of its container).
+
+//@ func (*binaryReader).next
+//@ split returns
+//@ requires brInv(r) && r.err == nil
+//@ modifies r.eof, r.lst, r.fieldName, r.annotations, r.valueType, r.value, r.ctx.arr, r.bits.pos, r.bits.state, r.bits.code, r.bits.null, r.bits.len, r.bits.stack.arr, vcStreamOf(r.bits.in).cur
+//@ ensures[C03,C06,C08] err == nil ==> brInv(r)
+//@ ensures[C03,C08] old(r.bits.state) == bssBeforeValue && (old(bsTop(&r.bits)) || old(r.bits.pos) != old(bsTopEnd(&r.bits))) && old(bsAvail(&r.bits)) > 0 && err == nil &&
+//@    specIonType(old(bsByte(&r.bits, 0))) != NoType ==> result && !r.eof && r.valueType == specIonType(old(bsByte(&r.bits, 0))) && ((r.value == nil) == specTagNull(old(bsByte(&r.bits, 0))))
+//@ ensures[C03,C10] old(r.bits.state) == bssBeforeValue && (old(bsTop(&r.bits)) || old(r.bits.pos) != old(bsTopEnd(&r.bits))) && old(bsAvail(&r.bits)) > 0 && err == nil &&
+//@    specIonType(old(bsByte(&r.bits, 0))) == NoType ==> !result && r.valueType == old(r.valueType)
+//@ ensures[C03] old(r.bits.state) == bssBeforeValue && (old(bsTop(&r.bits)) || old(r.bits.pos) != old(bsTopEnd(&r.bits))) && old(bsAvail(&r.bits)) > 0 && err == nil &&
+//@    old(bsByte(&r.bits, 0))>>4 == 0 && !specTagNull(old(bsByte(&r.bits, 0))) ==> !result && r.bits.state != bssOnValue && r.valueType == old(r.valueType) && r.fieldName == old(r.fieldName)
+//@ ensures[C03,C08] old(r.bits.state) == bssBeforeValue && !old(bsTop(&r.bits)) && old(r.bits.pos) == old(bsTopEnd(&r.bits)) ==> err == nil && result && r.eof
+//@ ensures[C07] old(r.bits.state) == bssBeforeValue && (old(bsTop(&r.bits)) || old(r.bits.pos) != old(bsTopEnd(&r.bits))) && old(bsAvail(&r.bits)) > 0 &&
+//@    specTagIllegal(old(bsByte(&r.bits, 0)), old(bsTop(&r.bits))) ==> err != nil
+//@ ensures[C07] old(r.bits.state) == bssBeforeValue && !old(bsTop(&r.bits)) && old(r.bits.pos) != old(bsTopEnd(&r.bits)) && old(bsAvail(&r.bits)) == 0 ==> err != nil
 //@ safe[C06]
